@@ -33,10 +33,24 @@ type archSpec struct {
 	mode                 string
 	wordSize             int
 	ops                  []string
+	so                   map[string]int // number of shared objects of each kind the processor is attached to
+}
+
+var soKinds = []string{"channel", "kbd", "lfsr8", "queue", "stack", "uart"}
+var soShort = map[string]string{"channel": "ch", "kbd": "k", "lfsr8": "lfsr8", "queue": "q", "stack": "st", "uart": "u"}
+
+func (s archSpec) soField() string {
+	var p []string
+	for _, k := range soKinds {
+		if s.so[k] > 0 {
+			p = append(p, k+":"+strconv.Itoa(s.so[k]))
+		}
+	}
+	return strings.Join(p, ",")
 }
 
 func (s archSpec) line() string {
-	return fmt.Sprintf("A %d %d %d %d %d %d %s %d ops=%s", s.rsize, s.r, s.n, s.m, s.l, s.o, s.mode, s.wordSize, strings.Join(s.ops, ","))
+	return fmt.Sprintf("A %d %d %d %d %d %d %s %d ops=%s so=%s", s.rsize, s.r, s.n, s.m, s.l, s.o, s.mode, s.wordSize, strings.Join(s.ops, ","), s.soField())
 }
 
 func allOps() map[string]procbuilder.Opcode {
@@ -69,6 +83,14 @@ func build(s archSpec) (*procbuilder.Machine, error) {
 	}
 	sort.Sort(procbuilder.ByName(ops))
 	a.Op = ops
+	// Shared_constraints: one "<kind>:<parameter>" entry per attached object
+	var cons []string
+	for _, k := range soKinds {
+		for i := 0; i < s.so[k]; i++ {
+			cons = append(cons, k+":8")
+		}
+	}
+	a.Shared_constraints = strings.Join(cons, ",")
 	return m, nil
 }
 
@@ -221,6 +243,17 @@ func genTokens(r *common.Rng, s archSpec, kind byte) string {
 		return strconv.Itoa(pick(1 << uint(s.l)))
 	case 'c':
 		return strconv.Itoa(pick(256))
+	case 'C', 'K', 'L', 'Q', 'S', 'U': // shared-object names: ch<k> k<k> lfsr8<k> q<k> st<k> u<k>
+		kind := map[byte]string{'C': "channel", 'K': "kbd", 'L': "lfsr8", 'Q': "queue", 'S': "stack", 'U': "uart"}[kind]
+		short := soShort[kind]
+		if r.Chance(1, 12) { // the name of another kind of object
+			short = soShort[soKinds[r.Intn(len(soKinds))]]
+		}
+		t := short + strconv.Itoa(pick(s.so[kind]))
+		if r.Chance(1, 25) {
+			t = short + "0" + strconv.Itoa(r.Intn(3)) // not the canonical spelling
+		}
+		return t
 	case 'x':
 		return []string{"foo", "r", "i", "o", "rx", "-1", "r-1", "1r", "R0", "r01", "+1", ""}[r.Intn(12)]
 	}
@@ -264,6 +297,12 @@ func init() {
 	for _, n := range strings.Fields("multfps16f8 addfps8f4 divfps16f8 multfxps16f8 addfxps8f4 divfxps16f8 multlqs8t1 addlqs8t1 divlqs8t1") {
 		shapes[n] = "rr"
 	}
+	shapes["k2r"] = "rK"
+	shapes["q2r"], shapes["r2q"] = "rQ", "rQ"
+	shapes["r2t"], shapes["t2r"] = "rS", "rS"
+	shapes["r2u"], shapes["u2r"] = "rU", "rU"
+	shapes["lfsr82r"] = "rL"
+	shapes["wrd"], shapes["wwr"] = "rC", "rC"
 	shapes["callo4st"] = "a"
 	shapes["calla4st"] = "m"
 	shapes["ret4st"] = ""
@@ -367,6 +406,13 @@ func genArch(r *common.Rng, names []string) archSpec {
 	if r.Chance(1, 6) { // WordSize override: sometimes too small, sometimes roomy
 		s.wordSize = 4 + r.Intn(40)
 	}
+	// shared objects: counts around powers of two (the index width changes), often none of a kind
+	s.so = map[string]int{}
+	for _, k := range soKinds {
+		if r.Chance(1, 2) {
+			s.so[k] = []int{1, 2, 3, 4, 5, 8, 9}[r.Intn(7)]
+		}
+	}
 	return s
 }
 
@@ -438,6 +484,15 @@ func main() {
 				opl := strings.TrimPrefix(f[9], "ops=")
 				if opl != "" {
 					s.ops = strings.Split(opl, ",")
+				}
+				s.so = map[string]int{}
+				if len(f) > 10 {
+					for _, kv := range strings.Split(strings.TrimPrefix(f[10], "so="), ",") {
+						q := strings.SplitN(kv, ":", 2)
+						if len(q) == 2 {
+							s.so[q[0]], _ = strconv.Atoi(q[1])
+						}
+					}
 				}
 				var err error
 				m, err = build(s)
